@@ -6,161 +6,312 @@ from mirlib import unawait
 
 META = {
     'explanation': 'Every HashMap operation on the status table is traced to a guard obtained from RwLock::read/write on the shared '
-                   '`statuses` field (mutations under the write guard, one guard spanning get-then-send); updates go through '
+                   'table (mutations under the write guard, one guard spanning get-then-send); updates go through '
                    'watch::Sender::send on the stored sender, Check reads the stored receiver\'s current value, Watch clones the stored '
                    'receiver into tokio_stream::wrappers::WatchStream::new (current value first), clearing removes the entry, the empty '
-                   'name defaults to SERVING and both lookups answer NOT_FOUND on a miss.',
+                   'name defaults to SERVING and both lookups answer NOT_FOUND on a miss. Functions, closures and helper functions are '
+                   'followed through calls, captures and function items, so the same facts are read whether the logic is written inline '
+                   'or spread over helpers; values are identified by type and by where they come from, not by their names.',
     'exhaustive': True,
     'assumptions': ['tokio::sync::watch / RwLock and tokio_stream::wrappers::WatchStream behave as documented (WatchStream::new yields the current value first; dropping the Sender ends receivers after the last value)'],
 }
 
 MAP_OPS = ('get', 'get_mut', 'insert', 'remove', 'entry', 'contains_key', 'iter', 'values', 'keys', 'clear', 'retain')
+WRITE_OPS = ('insert', 'remove', 'get_mut', 'entry', 'clear', 'retain')
 
 
-def lock_of(body, term):
-    """'read'/'write' if the receiver term of a map operation derives from an awaited RwLock::read/write on a `statuses` field"""
-    found = []
+def in_scope(bd):
+    return not (bd.kind == 'promoted' or 'server' not in bd.path or 'generated' in (bd.file or '') or '::tests::' in bd.path)
 
-    def walk(t, depth=0):
-        if depth > 60 or not isinstance(t, tuple):
-            return
-        if is_call(t) and t[3] in ('read', 'write') and 'RwLock' in t[1] and (mentions_field(t, 'statuses') or 'statuses' in show(t)):
-            found.append(t[3])
-            return
-        for x in t[1:]:
-            if isinstance(x, tuple):
-                walk(x, depth + 1)
-            elif isinstance(x, list):
-                for y in x:
-                    walk(y, depth + 1)
-    walk(term)
-    return found[0] if found else None
+
+def lock_of(term):
+    """'read'/'write' if the term derives from an awaited RwLock::read/write"""
+    found = find_terms(term, lambda t: is_call(t) and t[3] in ('read', 'write') and 'RwLock' in t[1])
+    return found[0][3] if found else None
+
+
+def deep_family(h, body, depth=0, seen=None):
+    """a body with everything it runs: its closures / coroutines, spliced helpers, and the crate-local (non-generated) functions it
+    calls or passes around as function items, transitively (bounded)"""
+    seen = seen if seen is not None else []
+    for m in family(h, body):
+        if m not in seen:
+            seen.append(m)
+    if depth >= 3:
+        return seen
+    for m in list(seen):
+        refs = set()
+        for bb, t in m.calls():
+            fn = t.get('fn') or ''
+            if fn.startswith('tonic_health::server'):
+                refs.add(fn)
+            for a in t['args']:
+                if 'k' in a and (a['k'].get('fn') or '').startswith('tonic_health::server'):
+                    refs.add(a['k']['fn'])
+        for bb in m.live_blocks():
+            for st in m.blocks[bb]['stmts']:
+                rv = st.get('rv') or {}
+                for o in rv.get('ops', []) if isinstance(rv, dict) else []:
+                    if 'k' in o and (o['k'].get('fn') or '').startswith('tonic_health::server'):
+                        refs.add(o['k']['fn'])
+        for fn in sorted(refs):
+            base = re.sub(r'::<[^:]*>$', '', fn)
+            for cand in h.bodies:
+                if cand.kind in ('fn', 'closure', 'coroutine') and in_scope(cand) and (cand.path == fn or cand.path == base or cand.path.startswith(fn + '::{') or cand.path.startswith(base + '::{')):
+                    if cand not in seen:
+                        deep_family(h, cand, depth + 1, seen)
+    return seen
+
+
+def trace(h, fam, body, term, depth=0):
+    """a term with closure captures resolved and, when it is rooted in a parameter of a helper function, replaced by what the family
+    passes for that parameter (one call site), repeatedly"""
+    t = resolve_env(h, body, term, within=fam)
+    if depth > 4:
+        return t
+    # which function does `body` belong to (a coroutine / closure of fn F)?
+    owner = body
+    for _ in range(4):
+        if owner.kind in ('closure', 'coroutine') and owner.parent:
+            ps = [x for x in h.bodies if x.path == owner.parent]
+            if not ps:
+                break
+            owner = ps[0]
+        else:
+            break
+    n = arg_root(strip_refs(t))
+    if n is None or owner.kind != 'fn':
+        return t
+    sites = [(b_, bb, tt) for b_ in fam for bb, tt in b_.calls() if (tt.get('fn') or '') and re.sub(r'::<[^:]*>$', '', tt['fn']) == re.sub(r'::<[^:]*>$', '', owner.path)]
+    if len(sites) != 1 or n - 1 >= len(sites[0][2]['args']):
+        return t
+    b_, bb, tt = sites[0]
+    return trace(h, fam, b_, b_.origin(tt['args'][n - 1]), depth + 1)
 
 
 def run(R):
     h = R.crate('tonic_health')
 
     # ---------------------------------------------------------------- R1 all map access under the lock
-    R.describe('C18.R1', 'every HashMap operation on the status table takes its receiver from a guard of RwLock::read/write(statuses).await; insert/remove and the get-then-send pair use the write guard')
-    ops_seen = {}
+    R.describe('C18.R1', 'every HashMap operation on the status table takes its receiver from a guard of RwLock::read/write(table).await (or works on a map that is not shared yet); insert/remove and the get-then-send pair use the write guard')
     with R.guard('C18.R1'):
+        kinds = set()
         n = 0
         for bd in h.bodies:
-            if bd.kind == 'promoted' or 'server::' not in bd.path or 'generated' in (bd.file or '') or '::tests::' in bd.path:
+            if not in_scope(bd):
                 continue
             for bb, t in bd.calls():
                 if t.get('name') in MAP_OPS and 'HashMap' in (t.get('fn') or ''):
                     n += 1
                     R.saw(bd)
-                    recv = bd.origin(t['args'][0])
-                    lk = lock_of(bd, recv)
-                    ops_seen.setdefault(short(bd.path), []).append((t['name'], lk, bb))
-                    need_write = t['name'] in ('insert', 'remove', 'get_mut', 'entry', 'clear', 'retain')
-                    R.check(lk is not None and (lk == 'write' or not need_write), 'C18.R1', 'locked:%s:%s' % (short(bd.path).split('::', 2)[-1], t['name']), site(bd, bb),
-                            'HashMap::%s receiver comes from RwLock::%s guard: %s' % (t['name'], lk, show(recv)[:90]))
-        R.floor('C18.R1', 'map operations', n, 5)
-        # HashMap::from in new() is construction, not access
+                    recv = resolve_env(h, bd, bd.origin(t['args'][0]))
+                    lk = lock_of(recv)
+                    kinds.add(t['name'])
+                    # a map built in this very body and only later wrapped in the lock is not shared yet
+                    r0 = strip_refs(recv)
+                    fresh = is_call(r0) and 'HashMap' in r0[1] and r0[3] in ('new', 'with_capacity', 'from', 'default', 'from_iter') and bool(bd.calls(pat='RwLock', name='new'))
+                    need_write = t['name'] in WRITE_OPS
+                    R.check(fresh or (lk is not None and (lk == 'write' or not need_write)), 'C18.R1', 'locked:%s:%s' % (short(bd.path).split('::', 2)[-1], t['name']), site(bd, bb),
+                            'HashMap::%s receiver comes from a RwLock::%s guard (or a map not shared yet: %r): %s' % (t['name'], lk, fresh, show(recv)[:90]))
+        R.check({'get', 'insert', 'remove'} <= kinds, 'C18.R1', 'floor:map operations', '', 'kinds of map operations seen: %r (%d sites)' % (sorted(kinds), n))
         ss = h.body('server::HealthReporter::set_service_status::{closure#0}')
-        wr = ss.calls(name='write')
+        SS = deep_family(h, ss)
+        R.saw(*SS)
+        wr = fam_calls(SS, pat='RwLock', name='write')
         R.check(len(wr) == 1, 'C18.R1', 'set:one-write-guard', site(ss), 'RwLock::write sites in set_service_status: %d (one guard spans lookup and update)' % len(wr))
-        R.check(not ss.calls(name='read'), 'C18.R1', 'set:no-read-then-write', site(ss), 'no read guard is taken (no check-then-act across two guards)')
-        # the guard is not dropped between get and send/insert
-        guard_locals = {mirlib.named_root(ss, t['args'][0]) for bb, t in ss.calls() if t.get('name') in MAP_OPS and 'HashMap' in (t.get('fn') or '')}
-        guard_locals.discard(None)
-        R.check(len(guard_locals) == 1, 'C18.R1', 'set:one-guard-variable', site(ss), 'map operations in set_service_status go through guard variable(s) %r' % sorted(ss.name_of(l) for l in guard_locals))
+        R.check(not fam_calls(SS, pat='RwLock', name='read'), 'C18.R1', 'set:no-read-then-write', site(ss), 'no read guard is taken (no check-then-act across two guards)')
+        # the write guard (identified by its type) is not released between the lookup and the send / insert
+        holder = wr[0][0] if wr else ss
+        guard_locals = {l for l in range(len(holder.local_tys)) if re.match(r'^(tokio::sync::)?(rwlock::)?RwLockWriteGuard<', holder.tystr(holder.local_tys[l]))}
+        R.check(len(guard_locals) >= 1, 'C18.R1', 'set:one-guard-variable', site(holder), 'locals holding the write guard: %d' % len(guard_locals))
+
+        def moved_out_before(l, dbb):
+            # a whole-value move of l that dominates the drop: the drop is then a no-op (the value lives on where it was moved to)
+            for bb_ in holder.live_blocks():
+                if not (holder.dominates(bb_, dbb) or bb_ == dbb):
+                    continue
+                for st_ in holder.blocks[bb_]['stmts']:
+                    rv_ = st_.get('rv') or {}
+                    u_ = rv_.get('use') if isinstance(rv_, dict) else None
+                    if u_ and isinstance(u_.get('mv'), dict) and u_['mv'].get('l') == l and not u_['mv'].get('pr'):
+                        return True
+                t_ = holder.term(bb_)
+                if bb_ != dbb and t_['k'] == 'call' and any(isinstance(a_.get('mv'), dict) and a_['mv'].get('l') == l and not a_['mv'].get('pr') for a_ in t_['args']):
+                    return True
+            return False
+        drops = [x for x in holder.live_blocks() if holder.term(x)['k'] == 'drop' and not holder.term(x)['p'].get('pr') and holder.term(x)['p']['l'] in guard_locals
+                 and not moved_out_before(holder.term(x)['p']['l'], x)]
+        drops += [bb for bb, t in holder.calls(pat='mem::drop') if any('RwLockWriteGuard' in g for g in t.get('ga', []))]
         for opn in ('send', 'insert'):
-            for bb, t in ss.calls(name=opn):
-                drops = [x for x in ss.live_blocks() if ss.term(x)['k'] == 'drop' and not ss.term(x)['p'].get('pr') and ss.term(x)['p']['l'] in guard_locals]
-                okd = bool(drops) and all(not ss.dominates(d, bb) for d in drops)
-                R.check(okd, 'C18.R1', 'set:guard-held-until-%s' % opn, site(ss, bb), 'the write guard variable is dropped only after %s (drop sites: %d)' % (opn, len(drops)))
+            for b_, bb, t in fam_calls(SS, name=opn):
+                if opn == 'send' and 'watch::Sender' not in (t.get('fn') or ''):
+                    continue
+                if opn == 'insert' and 'HashMap' not in (t.get('fn') or ''):
+                    continue
+                if b_ is holder:
+                    at = [bb]
+                else:
+                    # the operation sits in a callee: the guard must still be held where the holder calls into it
+                    root = b_
+                    for _ in range(4):
+                        if root.kind in ('closure', 'coroutine') and root.parent:
+                            ps = [x for x in h.bodies if x.path == root.parent]
+                            root = ps[0] if ps else root
+                    at = [cb for cb, ct in holder.calls() if (ct.get('fn') or '') and re.sub(r'::<[^:]*>$', '', ct['fn']) == root.path]
+                okd = bool(drops) and bool(at) and all(not holder.dominates(d, a_) for d in drops for a_ in at)
+                R.check(okd, 'C18.R1', 'set:guard-held-until-%s' % opn, site(b_, bb), 'the write guard is released only after %s (release sites: %d)' % (opn, len(drops)))
 
     # ---------------------------------------------------------------- R2 update / clear
     R.describe('C18.R2', 'set_service_status: existing entry -> Sender::send(status) on the stored sender; missing -> insert(name, watch::channel(status)); clear_service_status -> remove(name)')
     with R.guard('C18.R2'):
         ss = h.body('server::HealthReporter::set_service_status::{closure#0}')
-        R.saw(ss)
-        g = ss.calls(pat='HashMap', name='get')
-        R.check(len(g) == 1 and 'service_name' in show(ss.origin(g[0][1]['args'][1])), 'C18.R2', 'set:lookup-by-name', site(ss), 'writer.get(service_name)')
-        sd = ss.calls(pat='watch::Sender', name='send')
+        ssf = h.body('server::HealthReporter::set_service_status')
+        SS = deep_family(h, ss)
+        STATUS_N = param_of_type(ssf, r'ServingStatus$')
+        # the service name: the one parameter that is neither self nor the status (a &str or any S: AsRef<str>)
+        others = [n_ for n_ in range(2, ssf.argc + 1) if n_ != STATUS_N]
+        if len(others) != 1:
+            raise CheckError('UNRECOGNISED: set_service_status has %d parameters besides self and the status' % len(others))
+        NAME_N = others[0]
+
+        def is_param(b_, term, n):
+            tt = trace(h, SS, b_, term)
+            return arg_root(strip_refs(tt)) == n or any(arg_root(strip_refs(x)) == n for x in find_terms(tt, lambda y: isinstance(y, tuple) and y and y[0] in ('arg',)) if False) or \
+                bool(find_terms(tt, lambda y: isinstance(y, tuple) and y and y[0] == 'arg' and y[1] == n)) and not find_terms(tt, lambda y: isinstance(y, tuple) and y and y[0] == 'arg' and y[1] not in (n, 1))
+        g = fam_calls(SS, pat='HashMap', name='get')
+        R.check(len(g) == 1 and is_param(g[0][0], g[0][0].origin(g[0][2]['args'][1]), NAME_N), 'C18.R2', 'set:lookup-by-name', site(ss), 'table.get(service_name): %d lookup(s), keyed by the name parameter' % len(g))
+        from_get = lambda b_, t_: term_contains(trace(h, SS, b_, t_), lambda x: is_call(x, name='get') and 'HashMap' in x[1])
+        sd = fam_calls(SS, pat='watch::Sender', name='send')
         R.check(len(sd) == 1, 'C18.R2', 'set:send', site(ss), 'watch::Sender::send sites: %d' % len(sd))
-        for bb, t in sd:
-            tx = ss.origin(t['args'][0])
+        for b_, bb, t in sd:
+            tx = trace(h, SS, b_, b_.origin(t['args'][0]))
             okt = term_contains(tx, lambda x: is_call(x, name='get') and 'HashMap' in x[1]) and term_contains(tx, lambda x: x and x[0] == 'variant' and x[2] == 'Some')
-            R.check(okt, 'C18.R2', 'set:send-on-stored-sender', site(ss, bb), 'sender = %s' % show(tx)[:120])
-            st = ss.origin(t['args'][1])
-            R.check('status' in show(st), 'C18.R2', 'set:send-the-status', site(ss, bb), 'value = %s' % show(st)[:60])
-            gd = ss.edge_guards(bb)
-            R.check(any(tm[0] == 'discr' and 'get(' in show(tm) and vals == [1] for s, vals, tm in gd), 'C18.R2', 'set:send-iff-present', site(ss, bb), 'send only when the entry exists')
-        ins = ss.calls(pat='HashMap', name='insert')
+            R.check(okt, 'C18.R2', 'set:send-on-stored-sender', site(b_, bb), 'sender = %s' % show(tx)[:120])
+            R.check(is_param(b_, b_.origin(t['args'][1]), STATUS_N), 'C18.R2', 'set:send-the-status', site(b_, bb), 'value = %s' % show(trace(h, SS, b_, b_.origin(t['args'][1])))[:60])
+            # reached only when the lookup found the entry: in this body, or where the family calls into it
+            def guarded_by_get(b2, bb2, want):
+                for s, vals, tm in b2.edge_guards(bb2):
+                    if tm[0] == 'discr' and term_contains(trace(h, SS, b2, tm), lambda x: is_call(x, name='get') and 'HashMap' in x[1]) and vals in want:
+                        return True
+                return False
+            okg = guarded_by_get(b_, bb, ([1],))
+            if not okg and b_ is not ss:
+                owner = b_
+                while owner.kind in ('closure', 'coroutine') and owner.parent and [x for x in h.bodies if x.path == owner.parent]:
+                    owner = [x for x in h.bodies if x.path == owner.parent][0]
+                okg = any(guarded_by_get(c_, cbb, ([1],)) for c_ in SS for cbb, ct in c_.calls() if re.sub(r'::<[^:]*>$', '', ct.get('fn') or '') == owner.path)
+            R.check(okg, 'C18.R2', 'set:send-iff-present', site(b_, bb), 'send only when the entry exists')
+        ins = fam_calls(SS, pat='HashMap', name='insert')
         R.check(len(ins) == 1, 'C18.R2', 'set:insert', site(ss), 'HashMap::insert sites: %d' % len(ins))
-        for bb, t in ins:
-            v = ss.origin(t['args'][2])
-            okc = is_call(strip_refs(v), pat='watch::channel') and 'status' in show(strip_refs(v)[2][0])
-            R.check(okc, 'C18.R2', 'set:insert-fresh-channel(status)', site(ss, bb), 'value = %s' % show(v)[:80])
-            k = ss.origin(t['args'][1])
-            R.check('service_name' in show(k), 'C18.R2', 'set:insert-under-name', site(ss, bb), 'key = %s' % show(k)[:80])
-            gd = ss.edge_guards(bb)
-            R.check(any(tm[0] == 'discr' and 'get(' in show(tm) and vals in ([0], ['else']) for s, vals, tm in gd), 'C18.R2', 'set:insert-iff-absent', site(ss, bb), 'insert only when the entry is missing')
+        for b_, bb, t in ins:
+            v = trace(h, SS, b_, b_.origin(t['args'][2]))
+            chans = find_terms(v, lambda x: is_call(x, pat='watch::channel'))
+            # StatusChannel::new(status) written as a (known or new) constructor call: look into it
+            if not chans:
+                for c_ in find_terms(v, lambda x: is_call(x) and (x[1] or '').startswith('tonic_health::server')):
+                    for cb in [x for x in h.bodies if x.kind == 'fn' and x.path == re.sub(r'::<[^:]*>$', '', c_[1])]:
+                        for cbb, ct in cb.calls(pat='watch::channel'):
+                            if arg_root(strip_refs(cb.origin(ct['args'][0]))) is not None:
+                                an = arg_root(strip_refs(cb.origin(ct['args'][0])))
+                                chans.append(('call', ct.get('fn'), [c_[2][an - 1]], 'channel', ct))
+            okc = len(chans) >= 1 and all(is_param(b_, c_[2][0], STATUS_N) for c_ in chans)
+            R.check(okc, 'C18.R2', 'set:insert-fresh-channel(status)', site(b_, bb), 'value = %s' % show(v)[:80])
+            k = b_.origin(t['args'][1])
+            R.check(is_param(b_, k, NAME_N), 'C18.R2', 'set:insert-under-name', site(b_, bb), 'key = %s' % show(trace(h, SS, b_, k))[:80])
+            R.check(guarded_by_get(b_, bb, ([0], ['else'])), 'C18.R2', 'set:insert-iff-absent', site(b_, bb), 'insert only when the entry is missing')
         cl = h.body('server::HealthReporter::clear_service_status::{closure#0}')
-        R.saw(cl)
-        rm = cl.calls(pat='HashMap', name='remove')
-        R.check(len(rm) == 1 and 'service_name' in show(cl.origin(rm[0][1]['args'][1])), 'C18.R2', 'clear:remove(name)', site(cl), 'writer.remove(service_name)')
+        clf = h.body('server::HealthReporter::clear_service_status')
+        CL = deep_family(h, cl)
+        R.saw(*CL)
+        rm = fam_calls(CL, pat='HashMap', name='remove')
+        okr = len(rm) == 1 and clf.argc == 2 and bool(find_terms(trace(h, CL, rm[0][0], rm[0][0].origin(rm[0][2]['args'][1])), lambda y: isinstance(y, tuple) and y and y[0] == 'arg' and y[1] == 2))
+        R.check(okr, 'C18.R2', 'clear:remove(name)', site(cl), 'table.remove(service_name): %d site(s)' % len(rm))
         for nm, var in (('set_serving', 'Serving'), ('set_not_serving', 'NotServing')):
             b = h.body('server::HealthReporter::%s::{closure#0}' % nm)
+            F = deep_family(h, b)
             R.saw(b)
-            c = b.calls(name='set_service_status')
-            okv = len(c) == 1 and strip_refs(b.origin(c[0][1]['args'][2]))[0] == 'agg' and strip_refs(b.origin(c[0][1]['args'][2]))[1].get('variant') == var
-            okn = len(c) == 1 and term_contains(b.origin(c[0][1]['args'][1]), lambda x: x and x[0] in ('constdef', 'const') and 'NAME' in str(x[1]))
+            c = [(b_, bb, t) for b_, bb, t in fam_calls(F, name='set_service_status') if b_ is not ss and not b_.path.startswith(ssf.path + '::')]
+            okv = okn = False
+            if len(c) == 1:
+                b_, bb, t = c[0]
+                sv = strip_refs(mirlib.simplify(trace(h, F, b_, b_.origin(t['args'][2]))))
+                okv = sv[0] == 'agg' and sv[1].get('variant') == var
+                okn = term_contains(trace(h, F, b_, b_.origin(t['args'][1])), lambda x: x and x[0] in ('constdef', 'const') and 'NAME' in str(x[1]))
             R.check(okv and okn, 'C18.R2', '%s' % nm, site(b), '%s -> set_service_status(S::NAME, %s): name %r status %r' % (nm, var, okn, okv))
 
     # ---------------------------------------------------------------- R3 check / watch
     R.describe('C18.R3', 'check -> current value (*receiver.borrow()) of the stored receiver; watch -> WatchStream::new(clone of the stored receiver) (current value first); both NOT_FOUND on a missing name')
     with R.guard('C18.R3'):
-        sh = h.body('server::HealthService::service_health::{closure#0}')
-        fsh = family(h, sh)
-        R.saw(*fsh)
-        from_get_rx = lambda b_, t_: term_contains(b_.origin(t_), lambda x: is_call(x, name='get') and 'HashMap' in x[1]) or term_contains(b_.origin(t_), lambda x: x and x[0] == 'field' and x[2] in (1, '1'))
-        g = fam_calls(fsh, pat='HashMap', name='get')
-        R.check(len(g) == 1, 'C18.R3', 'check:get.map', site(sh), 'one lookup statuses.get(name) on the check path: %d' % len(g))
-        br = [(b_, bb, t) for b_, bb, t in fam_calls(fsh, name='borrow') if 'watch::Receiver' in (t.get('fn') or '')]
-        okb = len(br) == 1 and from_get_rx(br[0][0], br[0][2]['args'][0])
-        R.check(okb, 'C18.R3', 'check:current-value-of-stored-receiver', site(br[0][0], br[0][1]) if br else site(sh), 'the status returned is *receiver.borrow() of the receiver stored under that name: %r' % okb)
-        R.check(not fam_calls(fsh, name='borrow_and_update') and not fam_calls(fsh, name='changed'), 'C18.R3', 'check:not-consuming', site(sh), 'check does not consume change notifications')
-        ck = h.body(re.compile(r'server::HealthService as .*Health>::check::\{closure#0\}$'))
-        fck = family(h, ck)
-        R.saw(ck)
-        nf = fam_calls(fck, pat='Status::not_found')
-        oknf = False
-        if len(nf) == 1:
+        def lookup_facts(handler, tag):
+            F = deep_family(h, handler)
+            R.saw(*F)
+            g = fam_calls(F, pat='HashMap', name='get')
+            okg = False
+            if len(g) == 1:
+                key = trace(h, F, g[0][0], g[0][0].origin(g[0][2]['args'][1]))
+                okg = mentions_field(key, 'service') and lock_of(resolve_env(h, g[0][0], g[0][0].origin(g[0][2]['args'][0]))) in ('read', 'write')
+            return F, g, okg
+
+        def from_stored_rx(F, g, b_, op_):
+            """the receiver operand is the one stored under the looked-up name: derived from the get result, or the parameter of a
+            closure / function that the family applies to the looked-up entry"""
+            t_ = trace(h, F, b_, b_.origin(op_))
+            if term_contains(t_, lambda x: is_call(x, name='get') and 'HashMap' in x[1]):
+                return True
+            if arg_root(strip_refs(t_)) is not None or (strip_refs(t_) and arg_root(strip_refs(t_)) is None and find_terms(t_, lambda y: isinstance(y, tuple) and y and y[0] == 'arg')):
+                # rooted in a parameter of b_: b_ (or its function) must be handed over as a callable somewhere in the family
+                owner = b_.path
+                for m in F:
+                    for bb, t in m.calls():
+                        for a in t['args']:
+                            if 'k' in a and re.sub(r'::<[^:]*>$', '', a['k'].get('fn') or '') == owner:
+                                return True
+                            o_ = strip_refs(m.origin(a))
+                            if o_ and o_[0] == 'agg' and o_[1].get('def') == owner:
+                                return True
+            return False
+
+        def not_found_ok(F, handler, g):
+            nf = fam_calls(F, pat='Status::not_found')
+            if len(nf) != 1:
+                return False, len(nf)
             b_, bb_, t_ = nf[0]
-            if b_ is ck:
-                oknf = any(tm[0] == 'discr' and 'service_health' in show(tm) and vals in ([0], ['else']) for s, vals, tm in ck.edge_guards(bb_))
-            else:
-                # inside the closure handed to ok_or_else / ok_or on the lookup result
-                oknf = any(t2.get('name') in ('ok_or_else', 'ok_or') and term_contains(ck.origin(t2['args'][0]), lambda x: is_call(x, name='service_health') or (x and x[0] == 'yield')) for bb2, t2 in ck.calls())
-        R.check(oknf, 'C18.R3', 'check:not_found-on-miss', site(ck), 'Status::not_found exactly when the name is not registered: %r' % oknf)
-        shc = ck.calls(name='service_health')
-        R.check(len(shc) == 1 and 'service' in show(ck.origin(shc[0][1]['args'][1])), 'C18.R3', 'check:by-request-service', site(ck), 'service_health(request.service)')
+            # (a) behind the "not there" edge of a test on the lookup result (the get itself, or what a helper returned for it)
+            def lookupish(tm):
+                tt = trace(h, F, b_, tm)
+                return term_contains(tt, lambda x: (is_call(x, name='get') and 'HashMap' in x[1]) or (x and x[0] == 'yield') or (is_call(x) and (x[1] or '').startswith('tonic_health::server')) or is_call(x, name='poll'))
+            if any(tm[0] == 'discr' and lookupish(tm) and vals in ([0], ['else']) for s, vals, tm in b_.edge_guards(bb_)):
+                return True, 1
+            # (b) the closure handed to ok_or_else / ok_or on the lookup result
+            if b_.kind == 'closure':
+                for m in F:
+                    for bb2, t2 in m.calls():
+                        if t2.get('name') in ('ok_or_else', 'ok_or') and any(strip_refs(m.origin(a))[:1] == ('agg',) and strip_refs(m.origin(a))[1].get('def') == b_.path for a in t2['args']):
+                            return True, 1
+            return False, 1
+        ck = h.body(re.compile(r'server::HealthService as .*Health>::check::\{closure#0\}$'))
+        FCK, g, okg = lookup_facts(ck, 'check')
+        R.check(len(g) == 1, 'C18.R3', 'check:get.map', site(ck), 'one lookup table.get(name) on the check path: %d' % len(g))
+        R.check(okg, 'C18.R3', 'check:by-request-service', site(ck), 'the lookup is keyed by request.service and made under the lock: %r' % okg)
+        br = [(b_, bb, t) for b_, bb, t in fam_calls(FCK, name='borrow') if 'watch::Receiver' in (t.get('fn') or '')]
+        okb = len(br) == 1 and from_stored_rx(FCK, g, br[0][0], br[0][2]['args'][0])
+        R.check(okb, 'C18.R3', 'check:current-value-of-stored-receiver', site(br[0][0], br[0][1]) if br else site(ck), 'the status returned is *receiver.borrow() of the receiver stored under that name: %r' % okb)
+        R.check(not fam_calls(FCK, name='borrow_and_update') and not fam_calls(FCK, name='changed'), 'C18.R3', 'check:not-consuming', site(ck), 'check does not consume change notifications')
+        oknf, nnf = not_found_ok(FCK, ck, g)
+        R.check(oknf, 'C18.R3', 'check:not_found-on-miss', site(ck), 'Status::not_found exactly when the name is not registered: %r (sites %d)' % (oknf, nnf))
         nw = [(bb, t) for bb, t in ck.calls(name='new') if 'HealthCheckResponse' in (t.get('fn') or '')]
-        R.check(len(nw) == 1 and term_contains(ck.origin(nw[0][1]['args'][0]), lambda x: is_call(x, name='service_health') or (x and x[0] == 'yield')), 'C18.R3', 'check:returns-that-status', site(ck), 'HealthCheckResponse::new(status from service_health)')
+        okn = len(nw) == 1 and term_contains(ck.origin(nw[0][1]['args'][0]), lambda x: (is_call(x) and (x[1] or '').startswith('tonic_health::server')) or (x and x[0] == 'yield') or is_call(x, name='poll') or is_call(x, name='borrow'))
+        R.check(okn, 'C18.R3', 'check:returns-that-status', site(ck), 'HealthCheckResponse::new(status from the lookup)')
         wt = h.body(re.compile(r'server::HealthService as .*Health>::watch::\{closure#0\}$'))
-        fwt = family(h, wt)
-        R.saw(*fwt)
-        g = fam_calls(fwt, pat='HashMap', name='get')
-        okk = len(g) == 1 and ('service' in show(g[0][0].origin(g[0][2]['args'][1])) or (g[0][0] is not wt and term_contains(g[0][0].origin(g[0][2]['args'][1]), lambda x: x and x[0] == 'field' and x[1] in (('env',), ('deref', ('env',))))))
-        R.check(okk, 'C18.R3', 'watch:lookup', site(wt), 'statuses.read().await.get(request.service): %d lookup(s)' % len(g))
-        cn = [(b_, bb, t) for b_, bb, t in fam_calls(fwt, name='clone') if 'watch::Receiver' in ((t.get('resolved') or '') + (t.get('self_ty') or ''))]
-        R.check(len(cn) == 1 and from_get_rx(cn[0][0], cn[0][2]['args'][0]), 'C18.R3', 'watch:clone-stored-receiver', site(wt), 'rx.clone() of the stored receiver: %d site(s)' % len(cn))
+        FWT, g, okk = lookup_facts(wt, 'watch')
+        R.check(len(g) == 1 and okk, 'C18.R3', 'watch:lookup', site(wt), 'table.read().await.get(request.service): %d lookup(s), keyed by the request: %r' % (len(g), okk))
+        cn = [(b_, bb, t) for b_, bb, t in fam_calls(FWT, name='clone') if 'watch::Receiver' in ((t.get('resolved') or '') + (t.get('self_ty') or ''))]
+        R.check(len(cn) == 1 and from_stored_rx(FWT, g, cn[0][0], cn[0][2]['args'][0]), 'C18.R3', 'watch:clone-stored-receiver', site(wt), 'rx.clone() of the stored receiver: %d site(s)' % len(cn))
         ws = [(bb, t) for bb, t in wt.calls(name='new') if (t.get('fn') or '').endswith('server::WatchStream::new')]
-        via_helper = cn and cn[0][0] is not wt
-        R.check(len(ws) == 1 and (term_contains(wt.origin(ws[0][1]['args'][0]), lambda x: is_call(x, name='clone')) or (via_helper and term_contains(wt.origin(ws[0][1]['args'][0]), lambda x: x and (x[0] == 'yield' or is_call(x, name='poll'))))), 'C18.R3', 'watch:stream-of-that-clone', site(wt), 'WatchStream::new(status_rx)')
-        nf = fam_calls(fwt, pat='Status::not_found')
-        oknf = False
-        if len(nf) == 1 and nf[0][0] is wt:
-            oknf = any(tm[0] == 'discr' and ('get(' in show(tm) or (via_helper and term_contains(tm, lambda x: x and (x[0] == 'yield' or is_call(x, name='poll'))))) and vals in ([0], ['else']) for s, vals, tm in wt.edge_guards(nf[0][1]))
-        elif len(nf) == 1:
-            oknf = any(t2.get('name') in ('ok_or_else', 'ok_or') for bb2, t2 in wt.calls())
-        R.check(oknf, 'C18.R3', 'watch:not_found-on-miss', site(wt), 'Status::not_found when the name is not registered: %r' % oknf)
+        okws = len(ws) == 1 and term_contains(wt.origin(ws[0][1]['args'][0]), lambda x: is_call(x, name='clone') or (x and x[0] == 'yield') or is_call(x, name='poll') or (is_call(x) and (x[1] or '').startswith('tonic_health::server')))
+        R.check(okws, 'C18.R3', 'watch:stream-over-that-receiver', site(wt), 'WatchStream::new(the cloned receiver)')
+        oknf, nnf = not_found_ok(FWT, wt, g)
+        R.check(oknf, 'C18.R3', 'watch:not_found-on-miss', site(wt), 'Status::not_found when the name is not registered: %r (sites %d)' % (oknf, nnf))
         wn = h.body('server::WatchStream::new')
         R.saw(wn)
         c = wn.calls(name='new')
@@ -169,9 +320,10 @@ def run(R):
         R.check(not any(t.get('name') == 'from_changes' for bd in h.bodies for bb, t in bd.calls()), 'C18.R3', 'watch:no-from_changes', '', 'WatchStream::from_changes is not used anywhere in tonic-health')
         pn = h.body(re.compile(r'server::WatchStream as tokio_stream::Stream>::poll_next$'))
         R.saw(pn)
-        pl = pn.calls(name='poll_next')
-        R.check(len(pl) == 1 and mentions_field(pn.origin(pl[0][1]['args'][0]), 'inner'), 'C18.R3', 'stream:forwards-inner', site(pn), 'polls the wrapped WatchStream')
         fam_pn = family(h, pn)
+        is_inner_poll = lambda t_: t_.get('name') == 'poll_next' and re.search(r'tokio_stream::wrappers::(watch::)?WatchStream', (t_.get('self_ty') or '') + (t_.get('resolved') or '')) is not None
+        pl = [(bb, t) for bb, t in pn.calls(name='poll_next') if is_inner_poll(t)]
+        R.check(len(pl) == 1 and mentions_arg(pn.origin(pl[0][1]['args'][0]), 1), 'C18.R3', 'stream:forwards-inner', site(pn), 'polls the wrapped tokio WatchStream held in self: %d site(s)' % len(pl))
         selfmade = []
         for fb in fam_pn:
             for bb, i, p, a, ops in mirlib.aggregates(fb, 'task::Poll', 'Pending'):
@@ -182,24 +334,42 @@ def run(R):
         R.check(not selfmade, 'C18.R3', 'stream:no-self-made-pending', site(selfmade[0][0], selfmade[0][1]) if selfmade else site(pn),
                 'Poll::Pending is only ever the inner stream\'s Pending (which registered the waker): other constructed Pending sites %d — returning Pending without a registered waker parks the watcher forever' % len(selfmade))
         news = [(fb, bb, t) for fb in fam_pn for bb, t in fb.calls(name='new') if 'HealthCheckResponse' in (t.get('fn') or '')]
-        okm = len(news) == 1 and (show(news[0][0].origin(news[0][2]['args'][0])).startswith('arg2') if news[0][0] is not pn else term_contains(pn.origin(news[0][2]['args'][0]), lambda x: x and x[0] == 'variant' and x[2] == 'Some' and term_contains(x, lambda y: is_call(y, name='poll_next'))))
+        okm = False
+        if len(news) == 1:
+            fb, bb, t = news[0]
+            a0 = fb.origin(t['args'][0])
+            if fb is pn:
+                okm = term_contains(a0, lambda x: x and x[0] == 'variant' and x[2] == 'Some' and term_contains(x, lambda y: is_call(y, name='poll_next')))
+            else:
+                okm = arg_root(strip_refs(a0)) is not None
+        # every Some(status) of the inner stream becomes an item: no path from the Some arm of the inner poll to Pending / nothing
         R.check(okm, 'C18.R3', 'stream:maps-each-status', site(pn), 'each status yielded by the inner stream is mapped to Ok(HealthCheckResponse::new(status))')
 
     # ---------------------------------------------------------------- R4 defaults / sharing / conversions
     R.describe('C18.R4', 'HealthReporter::new registers "" -> SERVING; health_reporter() shares one Arc between reporter and service; ServingStatus conversion is the identity table')
     with R.guard('C18.R4'):
         nw = h.body('server::HealthReporter::new')
-        R.saw(nw)
-        ch = nw.calls(pat='watch::channel')
-        okd = len(ch) == 1 and strip_refs(nw.origin(ch[0][1]['args'][0]))[0] == 'agg' and strip_refs(nw.origin(ch[0][1]['args'][0]))[1].get('variant') == 'Serving'
-        ts = nw.calls(name='to_string')
-        okn = len(ts) == 1 and const_val(nw.origin(ts[0][1]['args'][0])) == ''
-        R.check(okd and okn, 'C18.R4', 'default-empty-name-serving', site(nw), '("".to_string(), watch::channel(Serving)): name %r status %r' % (okn, okd))
+        NW = deep_family(h, nw)
+        R.saw(*NW)
+        ch = fam_calls(NW, pat='watch::channel')
+        okd = False
+        if len(ch) == 1:
+            sv = strip_refs(mirlib.simplify(trace(h, NW, ch[0][0], ch[0][0].origin(ch[0][2]['args'][0]))))
+            okd = sv[0] == 'agg' and sv[1].get('variant') == 'Serving'
+        # the key: "" (to_string / to_owned / String::from of the empty literal, or String::new())
+        keys = []
+        for b_, bb, t in fam_calls(NW, name='to_string') + fam_calls(NW, name='to_owned') + fam_calls(NW, name='from'):
+            if t['args'] and const_val(b_.origin(t['args'][0])) == '':
+                keys.append(bb)
+        keys += [bb for b_, bb, t in fam_calls(NW, pat='String', name='new') if 'string::String' in (t.get('fn') or '')]
+        okn = len(keys) == 1
+        R.check(okd and okn, 'C18.R4', 'default-empty-name-serving', site(nw), '("" as String, watch::channel(Serving)): name %r status %r' % (okn, okd))
         hr = h.body('server::health_reporter')
         R.saw(hr)
         c = hr.calls(pat='HealthService::new')
-        oks = len(c) == 1 and is_call(strip_refs(hr.origin(c[0][1]['args'][0])), name='clone') and mentions_field(hr.origin(c[0][1]['args'][0]), 'statuses') and mentions_call(hr.origin(c[0][1]['args'][0]), pat='HealthReporter::new')
-        R.check(oks, 'C18.R4', 'shared-arc', site(hr), 'HealthService::new(reporter.statuses.clone()): %r' % oks)
+        oks = len(c) == 1 and is_call(strip_refs(hr.origin(c[0][1]['args'][0])), name='clone') and arg_root(strip_refs(strip_refs(hr.origin(c[0][1]['args'][0]))[2][0])) is None \
+            and mentions_call(hr.origin(c[0][1]['args'][0]), pat='HealthReporter::new') and 'Arc' in (strip_refs(hr.origin(c[0][1]['args'][0]))[4].get('self_ty') or strip_refs(hr.origin(c[0][1]['args'][0]))[1])
+        R.check(oks, 'C18.R4', 'shared-arc', site(hr), 'HealthService::new(reporter.<table>.clone()): %r' % oks)
         cv = h.body(re.compile(r'impl std::convert::From<ServingStatus> for .*health_check_response::ServingStatus>::from$'))
         R.saw(cv)
         rows = decision_rows(cv, 0, writers_of(cv, 0))
@@ -214,5 +384,7 @@ def run(R):
             R.eq(got.get(nme), nme, 'C18.R4', 'convert:%s' % nme, site(cv), 'wire status for ServingStatus::%s' % nme)
         rn = h.body('server::<impl generated::grpc_health_v1::HealthCheckResponse>::new')
         R.saw(rn)
-        fr = rn.calls(name='from') + rn.calls(name='into')
-        R.check(len(fr) == 1 and show(rn.origin(fr[0][1]['args'][0])).startswith('arg1'), 'C18.R4', 'response-carries-status', site(rn), 'HealthCheckResponse::new(status) converts that status')
+        fr = [(bb, t) for bb, t in rn.calls(name='from') + rn.calls(name='into') if t['args'] and show(strip_refs(rn.origin(t['args'][0]))).startswith('arg1')]
+        ag = mirlib.aggregates(rn, 'HealthCheckResponse')
+        okr = len(fr) == 1 and show(rn.origin(fr[0][1]['args'][0])).startswith('arg1') and len(ag) == 1 and term_contains(rn.origin(ag[0][4][ag[0][3]['fields'].index('status')]), lambda x: is_call(x) and x[4] is fr[0][1])
+        R.check(okr, 'C18.R4', 'response-carries-status', site(rn), 'HealthCheckResponse::new(status) stores the wire value converted from that status')
